@@ -1,6 +1,1690 @@
-//! C14 — stub (monitor not built yet).
-use crate::core::Ctx;
+//! C14 — manifest entries cannot name anything outside the publication point.
+//!
+//! Workload: manifest eContent assembled with the independent DER/BER writer
+//! (`crate::der`): hostile and valid file names of every shape, hash BIT
+//! STRINGs of 0..64 octets with 0..7 unused bits, 0..2000 entries, times in
+//! both orders, manifest numbers at the boundaries, a few structural defects
+//! and BER-only encodings. Every eContent is decoded directly
+//! (`ManifestContent::take_from` in DER and BER mode) and, in the native and
+//! ASan stages, inside a complete signed manifest: a CMS SignedData assembled
+//! here (not by the library's encoder), signed with aws-lc-rs directly, with
+//! an EE certificate issued through the library's `TbsCert` under the key pool.
+//!
+//! Oracle (written from the property statement, for every manifest that
+//! decodes): every listed name matches `[A-Za-z0-9_-]+\.[A-Za-z]{3}` (an empty
+//! stem is only counted); `iter().count() == len()` and the iterator yields
+//! the entries that were encoded; `iter_uris(base)` completes without panic
+//! for a set of rsync bases and every URI is `directory-form(base) + name`,
+//! directly inside that directory, its `parent()` is the directory and it
+//! re-parses to an equal URI; this-update <= next-update; `ManifestHash::verify`
+//! is Ok exactly when the listed octets equal SHA-256(data) (aws-lc-rs
+//! directly). Rejected manifests are fine; reasons are counted.
+
+use crate::core::{catch, hex, panic_location, Ctx, Rng, Stage, Tier};
+use crate::der;
+use crate::keys::{sha1, sha256, PoolSigner};
+use bcder::Mode;
+use bytes::Bytes;
+use rpki::crypto::DigestAlgorithm;
+use rpki::repository::cert::{KeyUsage, Overclaim, ResourceCert, TbsCert};
+use rpki::repository::manifest::{Manifest, ManifestContent, ManifestHash};
+use rpki::repository::tal::TalInfo;
+use rpki::repository::x509::{Serial, Time, Validity};
+use rpki::uri::Rsync;
+use serde_json::{json, Value};
+use std::str::FromStr;
+
+//------------ name oracle ---------------------------------------------------
+
+#[derive(Clone, Copy, Debug, PartialEq, Eq)]
+enum NameVerdict {
+    /// `[A-Za-z0-9_-]+\.[A-Za-z]{3}`
+    Ok,
+    /// `\.[A-Za-z]{3}`: forbidden by RFC 9286, not clearly by the statement.
+    EmptyStem,
+    Bad(&'static str),
+}
+
+fn stem_char(c: u8) -> bool {
+    c.is_ascii_alphanumeric() || c == b'-' || c == b'_'
+}
+
+/// The grammar of the property statement, written without looking at the
+/// library: stem characters, one dot, exactly three letters.
+fn judge_name(n: &[u8]) -> NameVerdict {
+    let dots: Vec<usize> = n.iter().enumerate().filter(|(_, c)| **c == b'.').map(|(i, _)| i).collect();
+    let matches_with_stem = |min_stem: usize| -> bool {
+        if dots.len() != 1 {
+            return false;
+        }
+        let p = dots[0];
+        let (stem, ext) = (&n[..p], &n[p + 1..]);
+        stem.len() >= min_stem && stem.iter().all(|c| stem_char(*c)) && ext.len() == 3 && ext.iter().all(|c| c.is_ascii_alphabetic())
+    };
+    if matches_with_stem(1) {
+        return NameVerdict::Ok;
+    }
+    if matches_with_stem(0) {
+        return NameVerdict::EmptyStem;
+    }
+    // why not (only used to key the violation signature)
+    let why = if n.is_empty() {
+        "empty"
+    } else if n.contains(&b'/') {
+        "slash"
+    } else if n.iter().any(|c| *c >= 0x80) {
+        "non-ascii"
+    } else if n.iter().any(|c| *c < 0x20 || *c == 0x7F) {
+        "control-char"
+    } else if n.contains(&b'\\') {
+        "backslash"
+    } else if n.contains(&b'%') {
+        "percent"
+    } else if n.contains(&b' ') {
+        "space"
+    } else if dots.is_empty() {
+        "no-dot"
+    } else if dots.len() > 1 {
+        "multiple-dots"
+    } else {
+        let p = dots[0];
+        let (stem, ext) = (&n[..p], &n[p + 1..]);
+        if !stem.iter().all(|c| stem_char(*c)) {
+            "stem-char"
+        } else if ext.len() != 3 {
+            "ext-length"
+        } else {
+            "ext-non-letter"
+        }
+    };
+    NameVerdict::Bad(why)
+}
+
+//------------ name generator ------------------------------------------------
+
+const STEM_ALL: &[u8] = b"abcdefghijklmnopqrstuvwxyzABCDEFGHIJKLMNOPQRSTUVWXYZ0123456789-_";
+const STEM_LOWER: &[u8] = b"abcdefghijklmnopqrstuvwxyz0123456789";
+const LETTERS: &[u8] = b"abcdefghijklmnopqrstuvwxyzABCDEFGHIJKLMNOPQRSTUVWXYZ";
+const KNOWN_EXT: &[&[u8]] = &[b"roa", b"cer", b"crl", b"mft", b"gbr", b"asa", b"sig", b"tak"];
+/// The hostile alphabet of the design: `/ . \ % space NUL`, bytes >= 0x80, and
+/// ordinary name characters so that near-valid strings come up.
+const HOSTILE: &[u8] = b"/.\\% \0\x80\xff\xc3\xa9ab9-_Z.r/..o\t\r\n:~+*?#@";
+
+fn rand_from(rng: &mut Rng, alphabet: &[u8], len: usize) -> Vec<u8> {
+    (0..len).map(|_| *rng.pick(alphabet)).collect()
+}
+
+fn rand_ext(rng: &mut Rng) -> Vec<u8> {
+    if rng.chance(2, 3) {
+        rng.pick(KNOWN_EXT).to_vec()
+    } else {
+        rand_from(rng, LETTERS, 3)
+    }
+}
+
+const VALID_SHAPES: &[&str] = &[
+    "valid:plain",
+    "valid:mixed-case-dash-underscore",
+    "valid:single-char-stem",
+    "valid:long-stem",
+    "valid:max-1100",
+    "valid:dashes-only-stem",
+    "valid:digits-only-stem",
+    "valid:upper-ext",
+    "valid:hash-like-stem",
+];
+
+fn gen_valid(rng: &mut Rng, shape: &'static str, small: bool) -> Vec<u8> {
+    let mut n = match shape {
+        "valid:plain" => {
+            let l = rng.range(1, 20) as usize;
+            rand_from(rng, STEM_LOWER, l)
+        }
+        "valid:mixed-case-dash-underscore" => {
+            if rng.chance(1, 4) {
+                b"A-_9".to_vec()
+            } else {
+                let l = rng.range(1, 24) as usize;
+                rand_from(rng, STEM_ALL, l)
+            }
+        }
+        "valid:single-char-stem" => rand_from(rng, STEM_ALL, 1),
+        "valid:long-stem" => {
+            let hi = if small { 130 } else { 1000 };
+            let l = rng.range(60, hi) as usize;
+            rand_from(rng, STEM_ALL, l)
+        }
+        "valid:max-1100" => rand_from(rng, STEM_ALL, 1096),
+        "valid:dashes-only-stem" => {
+            let l = rng.range(1, 8) as usize;
+            rand_from(rng, b"-_", l)
+        }
+        "valid:digits-only-stem" => {
+            let l = rng.range(1, 12) as usize;
+            rand_from(rng, b"0123456789", l)
+        }
+        "valid:upper-ext" => {
+            let l = rng.range(1, 12) as usize;
+            rand_from(rng, STEM_ALL, l)
+        }
+        _ => {
+            // 27-character base64url-ish key identifier stems as used in the wild
+            rand_from(rng, STEM_ALL, 27)
+        }
+    };
+    n.push(b'.');
+    match shape {
+        "valid:upper-ext" => n.extend_from_slice(if rng.bool() { b"CER" } else { b"RoA" }),
+        "valid:mixed-case-dash-underscore" if n == b"A-_9." => n.extend_from_slice(b"CER"),
+        _ => n.extend(rand_ext(rng)),
+    }
+    n
+}
+
+const HOSTILE_SHAPES: &[&str] = &[
+    "slash-inside",       // a/b.roa
+    "slash-leading",      // /a.roa
+    "slash-trailing",     // a.roa/
+    "dotdot-prefix",      // ../x.cer
+    "dotdot-only",        // ..
+    "dot-only",           // .
+    "dotdot-inside",      // a/../b.roa
+    "double-dot",         // a..roa
+    "two-dots",           // a.b.roa
+    "trailing-dot",       // a.roa.
+    "ext-2",              // a.ro
+    "ext-1",              // a.r
+    "ext-0",              // a.
+    "ext-4",              // a.roaa
+    "ext-digit",          // a.r0a
+    "ext-dash",           // a.r-a
+    "ext-underscore",     // a.r_a
+    "no-dot",             // aroa
+    "empty",              //
+    "backslash",          // a\b.roa
+    "percent-encoded",    // a%2fb.roa , %2e%2e%2fx.cer
+    "space-inside",       // a b.roa
+    "space-edge",         // " a.roa" / "a.roa "
+    "nul-inside",         // a\0.roa
+    "nul-after-ext",      // a.roa\0
+    "high-byte",          // a\x80.roa
+    "utf8",               // é.roa
+    "control",            // a\r\n.roa
+    "punctuation",        // a+b.roa a~b.roa a:b.roa ...
+    "random-hostile",     // random over the hostile alphabet, 0..1100
+    "long-with-slash",    // 1100 bytes with one slash
+    "long-ext",           // a.<1000 letters>
+    "near-valid-stem",    // valid name with one stem byte replaced
+    "near-valid-ext",     // valid name with one extension byte replaced
+    "absolute-uri",       // rsync://evil/m/x.roa
+    "empty-stem",         // .roa (observation class, not hostile per statement)
+];
+
+fn gen_hostile(rng: &mut Rng, shape: &'static str, small: bool) -> Vec<u8> {
+    let stem = |rng: &mut Rng| {
+        let l = rng.range(1, 8) as usize;
+        rand_from(rng, STEM_ALL, l)
+    };
+    let ext = |rng: &mut Rng| rand_ext(rng);
+    let cat = |parts: &[&[u8]]| der::concat(parts);
+    match shape {
+        "slash-inside" => cat(&[&stem(rng), b"/", &stem(rng), b".", &ext(rng)]),
+        "slash-leading" => cat(&[b"/", &stem(rng), b".", &ext(rng)]),
+        "slash-trailing" => cat(&[&stem(rng), b".", &ext(rng), b"/"]),
+        "dotdot-prefix" => {
+            let ups = rng.range(1, 4) as usize;
+            let mut v = Vec::new();
+            for _ in 0..ups {
+                v.extend_from_slice(b"../");
+            }
+            v.extend(cat(&[&stem(rng), b".", &ext(rng)]));
+            v
+        }
+        "dotdot-only" => b"..".to_vec(),
+        "dot-only" => b".".to_vec(),
+        "dotdot-inside" => cat(&[&stem(rng), b"/../", &stem(rng), b".", &ext(rng)]),
+        "double-dot" => cat(&[&stem(rng), b"..", &ext(rng)]),
+        "two-dots" => cat(&[&stem(rng), b".", &stem(rng), b".", &ext(rng)]),
+        "trailing-dot" => cat(&[&stem(rng), b".", &ext(rng), b"."]),
+        "ext-2" => cat(&[&stem(rng), b".", &rand_from(rng, LETTERS, 2)]),
+        "ext-1" => cat(&[&stem(rng), b".", &rand_from(rng, LETTERS, 1)]),
+        "ext-0" => cat(&[&stem(rng), b"."]),
+        "ext-4" => cat(&[&stem(rng), b".", &rand_from(rng, LETTERS, 4)]),
+        "ext-digit" => {
+            let mut e = ext(rng);
+            e[rng.usize_below(3)] = *rng.pick(b"0123456789");
+            cat(&[&stem(rng), b".", &e])
+        }
+        "ext-dash" => {
+            let mut e = ext(rng);
+            e[rng.usize_below(3)] = b'-';
+            cat(&[&stem(rng), b".", &e])
+        }
+        "ext-underscore" => {
+            let mut e = ext(rng);
+            e[rng.usize_below(3)] = b'_';
+            cat(&[&stem(rng), b".", &e])
+        }
+        "no-dot" => cat(&[&stem(rng), &ext(rng)]),
+        "empty" => Vec::new(),
+        "backslash" => {
+            if rng.bool() {
+                cat(&[&stem(rng), b"\\", &stem(rng), b".", &ext(rng)])
+            } else {
+                cat(&[b"..\\", &stem(rng), b".", &ext(rng)])
+            }
+        }
+        "percent-encoded" => {
+            if rng.bool() {
+                cat(&[&stem(rng), b"%2f", &stem(rng), b".", &ext(rng)])
+            } else {
+                cat(&[b"%2e%2e%2f", &stem(rng), b".", &ext(rng)])
+            }
+        }
+        "space-inside" => cat(&[&stem(rng), b" ", &stem(rng), b".", &ext(rng)]),
+        "space-edge" => {
+            if rng.bool() {
+                cat(&[b" ", &stem(rng), b".", &ext(rng)])
+            } else {
+                cat(&[&stem(rng), b".", &ext(rng), b" "])
+            }
+        }
+        "nul-inside" => cat(&[&stem(rng), b"\0", b".", &ext(rng)]),
+        "nul-after-ext" => cat(&[&stem(rng), b".", &ext(rng), b"\0"]),
+        "high-byte" => {
+            let b = [rng.range(0x80, 0xFF) as u8];
+            if rng.bool() {
+                cat(&[&stem(rng), &b, b".", &ext(rng)])
+            } else {
+                let mut e = ext(rng);
+                e[rng.usize_below(3)] = b[0];
+                cat(&[&stem(rng), b".", &e])
+            }
+        }
+        "utf8" => cat(&[&stem(rng), "é".as_bytes(), b".", &ext(rng)]),
+        "control" => {
+            let c: &[u8] = *rng.pick(&[&b"\r\n"[..], b"\t", b"\n", b"\x7f", b"\x1b"]);
+            cat(&[&stem(rng), c, &stem(rng), b".", &ext(rng)])
+        }
+        "punctuation" => {
+            let c = [*rng.pick(b"+~:*?#@!$&'()=,;<>[]^`{|}\"")];
+            cat(&[&stem(rng), &c, &stem(rng), b".", &ext(rng)])
+        }
+        "random-hostile" => {
+            let hi = if small { 40 } else { 1100 };
+            let l = if rng.chance(3, 4) { rng.range(0, 12) } else { rng.range(0, hi) } as usize;
+            rand_from(rng, HOSTILE, l)
+        }
+        "long-with-slash" => {
+            let total = if small { 120 } else { 1100 };
+            let mut v = rand_from(rng, STEM_ALL, total - 4);
+            let p = rng.usize_below(v.len());
+            v[p] = b'/';
+            v.extend_from_slice(b".roa");
+            v
+        }
+        "long-ext" => {
+            let l = if small { 60 } else { rng.range(5, 1000) as usize };
+            cat(&[&stem(rng), b".", &rand_from(rng, LETTERS, l)])
+        }
+        "near-valid-stem" => {
+            let mut v = gen_valid(rng, "valid:plain", small);
+            let p = rng.usize_below(v.len() - 4);
+            v[p] = *rng.pick(b"/.\\% \0\x80\xff+~:");
+            v
+        }
+        "near-valid-ext" => {
+            let mut v = gen_valid(rng, "valid:plain", small);
+            let l = v.len();
+            let p = l - 1 - rng.usize_below(3);
+            v[p] = *rng.pick(b"/.\\% \0\x80\xff0-_9");
+            v
+        }
+        "absolute-uri" => cat(&[b"rsync://evil.example/m/", &stem(rng), b".", &ext(rng)]),
+        _ => cat(&[b".", &ext(rng)]), // empty-stem
+    }
+}
+
+//------------ times ---------------------------------------------------------
+
+const TS_MIN: i64 = -62_135_596_800; // 0001-01-01T00:00:00Z
+const TS_MAX: i64 = 253_402_300_799; // 9999-12-31T23:59:59Z
+
+/// Days since 1970-01-01 to proleptic Gregorian (y, m, d). (H. Hinnant's algorithm.)
+fn civil_from_days(z: i64) -> (i64, u32, u32) {
+    let z = z + 719_468;
+    let era = if z >= 0 { z } else { z - 146_096 } / 146_097;
+    let doe = z - era * 146_097;
+    let yoe = (doe - doe / 1460 + doe / 36_524 - doe / 146_096) / 365;
+    let y = yoe + era * 400;
+    let doy = doe - (365 * yoe + yoe / 4 - yoe / 100);
+    let mp = (5 * doy + 2) / 153;
+    let d = (doy - (153 * mp + 2) / 5 + 1) as u32;
+    let m = if mp < 10 { mp + 3 } else { mp - 9 } as u32;
+    (if m <= 2 { y + 1 } else { y }, m, d)
+}
+
+fn civil(ts: i64) -> (i64, u32, u32, u32, u32, u32) {
+    let days = ts.div_euclid(86_400);
+    let rem = ts.rem_euclid(86_400);
+    let (y, m, d) = civil_from_days(days);
+    (y, m, d, (rem / 3600) as u32, (rem % 3600 / 60) as u32, (rem % 60) as u32)
+}
+
+#[derive(Clone, Debug)]
+struct TimeSpec {
+    ts: i64,
+    utc: bool,
+    /// textual defect, None = well-formed
+    defect: Option<&'static str>,
+}
+
+impl TimeSpec {
+    fn text(&self) -> String {
+        let (y, mo, d, h, mi, s) = civil(self.ts);
+        let mut t = if self.utc {
+            format!("{:02}{:02}{:02}{:02}{:02}{:02}Z", y % 100, mo, d, h, mi, s)
+        } else {
+            format!("{:04}{:02}{:02}{:02}{:02}{:02}Z", y, mo, d, h, mi, s)
+        };
+        match self.defect {
+            None => {}
+            Some("no-z") => {
+                t.pop();
+            }
+            Some("fraction") => {
+                t.pop();
+                t.push_str(".5Z");
+            }
+            Some("offset") => {
+                t.pop();
+                t.push_str("+0000");
+            }
+            Some("month-13") => {
+                let p = if self.utc { 2 } else { 4 };
+                t.replace_range(p..p + 2, "13");
+            }
+            Some("day-00") => {
+                let p = if self.utc { 4 } else { 6 };
+                t.replace_range(p..p + 2, "00");
+            }
+            Some("feb-30") => {
+                let p = if self.utc { 2 } else { 4 };
+                t.replace_range(p..p + 4, "0230");
+            }
+            Some("hour-24") => {
+                let p = if self.utc { 6 } else { 8 };
+                t.replace_range(p..p + 2, "24");
+            }
+            Some("sec-61") => {
+                let p = if self.utc { 10 } else { 12 };
+                t.replace_range(p..p + 2, "61");
+            }
+            Some("short") => {
+                t.truncate(t.len() - 3);
+                t.push('Z');
+            }
+            Some("letters") => {
+                let p = if self.utc { 2 } else { 4 };
+                t.replace_range(p..p + 2, "Ja");
+            }
+            Some(_) => {
+                t.clear();
+            }
+        }
+        t
+    }
+
+    fn encode(&self) -> Vec<u8> {
+        let t = self.text();
+        if self.utc {
+            der::utctime(&t)
+        } else {
+            der::gentime(&t)
+        }
+    }
+}
+
+const TIME_DEFECTS: &[&str] = &[
+    "no-z", "fraction", "offset", "month-13", "day-00", "feb-30", "hour-24", "sec-61", "short", "letters", "empty",
+];
+
+const TIME_ANCHORS: &[i64] = &[
+    TS_MIN,
+    TS_MAX,
+    0,
+    -1,
+    946_684_799,   // 1999-12-31T23:59:59
+    946_684_800,   // 2000-01-01
+    951_782_400,   // 2000-02-29
+    1_709_251_199, // 2024-02-29T23:59:59
+    2_147_483_647, // 2038-01-19T03:14:07
+    2_147_483_648,
+    2_524_607_999, // 2049-12-31T23:59:59 (UTCTime pivot)
+    2_524_608_000, // 2050-01-01
+    -631_152_000,  // 1950-01-01 (UTCTime pivot)
+    -631_152_001,
+    4_102_444_800, // 2100-01-01
+    1_700_000_000,
+];
+
+fn gen_ts(rng: &mut Rng) -> i64 {
+    match rng.below(4) {
+        0 => {
+            let a = *rng.pick(TIME_ANCHORS);
+            (a + rng.range(0, 4) as i64 - 2).clamp(TS_MIN, TS_MAX)
+        }
+        1 => TS_MIN + rng.below((TS_MAX - TS_MIN) as u64 + 1) as i64,
+        _ => 1_500_000_000 + rng.below(400_000_000) as i64, // 2017..2030
+    }
+}
+
+//------------ case model ----------------------------------------------------
+
+#[derive(Clone, Copy, Debug, PartialEq, Eq)]
+enum NameEnc {
+    Primitive,
+    /// BER constructed IA5String of k OCTET STRING segments
+    Segments(usize),
+    /// other universal tag
+    Tag(u8),
+}
+
+#[derive(Clone, Copy, Debug, PartialEq, Eq)]
+enum HashEnc {
+    BitString,
+    /// a structural defect name
+    Defect(&'static str),
+}
+
+#[derive(Clone, Copy, Debug, PartialEq, Eq)]
+enum HashRel {
+    Random,
+    Match,
+    BitFlip,
+    Truncated,
+    Extended,
+    Empty,
+    OtherData,
+}
+
+impl HashRel {
+    fn label(self) -> &'static str {
+        match self {
+            HashRel::Random => "random",
+            HashRel::Match => "match",
+            HashRel::BitFlip => "one-bit-different",
+            HashRel::Truncated => "truncated-prefix",
+            HashRel::Extended => "match-plus-extra-octets",
+            HashRel::Empty => "empty",
+            HashRel::OtherData => "hash-of-other-data",
+        }
+    }
+}
+
+#[derive(Clone, Debug)]
+struct Entry {
+    name: Vec<u8>,
+    shape: &'static str,
+    name_enc: NameEnc,
+    hash: Vec<u8>,
+    unused: u8,
+    hash_enc: HashEnc,
+    /// data the hash is related to (None under Miri / for random hashes)
+    data: Option<Vec<u8>>,
+    rel: HashRel,
+    /// entry-level structure: None, or a defect name
+    defect: Option<&'static str>,
+    indefinite: bool,
+}
+
+#[derive(Clone, Debug)]
+struct Case {
+    plan: &'static str,
+    /// shape of the name the case is about
+    focus: &'static str,
+    focus_pos: &'static str,
+    version: &'static str, // absent | explicit-0 | explicit-1 | explicit-0-ber-indef
+    number: Vec<u8>,       // INTEGER content octets
+    number_class: &'static str,
+    this_update: TimeSpec,
+    next_update: TimeSpec,
+    time_order: &'static str,
+    alg: &'static str,
+    entries: Vec<Entry>,
+    structure: Option<&'static str>,
+    ber: Option<&'static str>,
+}
+
+fn count_class(n: usize) -> &'static str {
+    match n {
+        0 => "0",
+        1 => "1",
+        2..=10 => "2-10",
+        11..=100 => "11-100",
+        101..=500 => "101-500",
+        _ => "501-2000",
+    }
+}
+
+fn hash_class(h: usize) -> &'static str {
+    match h {
+        0 => "0",
+        1..=31 => "1-31",
+        32 => "32",
+        _ => "33-64",
+    }
+}
+
+fn gen_count(rng: &mut Rng, stage: Stage) -> usize {
+    let r = rng.below(1000);
+    if stage == Stage::Miri {
+        return match r {
+            0..=99 => 0,
+            100..=399 => 1,
+            400..=899 => rng.range(2, 6) as usize,
+            _ => rng.range(7, 14) as usize,
+        };
+    }
+    match r {
+        0..=59 => 0,
+        60..=299 => 1,
+        300..=749 => rng.range(2, 10) as usize,
+        750..=959 => rng.range(11, 100) as usize,
+        960..=993 => rng.range(101, 500) as usize,
+        _ => rng.range(501, 2000) as usize,
+    }
+}
+
+const NUMBER_CLASSES: &[&str] = &[
+    "0", "1", "127", "128", "255", "256", "2^63", "2^64-1", "2^159-1", "2^159", "2^160-1", "2^160", "negative",
+    "non-minimal", "empty-integer", "random-8", "random-20",
+];
+
+fn gen_number(rng: &mut Rng) -> (Vec<u8>, &'static str) {
+    let class: &'static str = if rng.chance(1, 2) { *rng.pick(&["1", "random-8", "127", "256"]) } else { *rng.pick(NUMBER_CLASSES) };
+    let content: Vec<u8> = match class {
+        "0" => vec![0],
+        "1" => vec![1],
+        "127" => vec![0x7F],
+        "128" => vec![0, 0x80],
+        "255" => vec![0, 0xFF],
+        "256" => vec![1, 0],
+        "2^63" => {
+            let mut v = vec![0, 0x80];
+            v.extend_from_slice(&[0; 7]);
+            v
+        }
+        "2^64-1" => {
+            let mut v = vec![0];
+            v.extend_from_slice(&[0xFF; 8]);
+            v
+        }
+        "2^159-1" => {
+            let mut v = vec![0x7F];
+            v.extend_from_slice(&[0xFF; 19]);
+            v
+        }
+        "2^159" => {
+            let mut v = vec![0, 0x80];
+            v.extend_from_slice(&[0; 19]);
+            v
+        }
+        "2^160-1" => {
+            let mut v = vec![0];
+            v.extend_from_slice(&[0xFF; 20]);
+            v
+        }
+        "2^160" => {
+            let mut v = vec![1];
+            v.extend_from_slice(&[0; 20]);
+            v
+        }
+        "negative" => vec![0xFF],
+        "non-minimal" => vec![0, 0x01],
+        "empty-integer" => vec![],
+        "random-8" => {
+            let mut v = rng.bytes(8);
+            v[0] &= 0x7F;
+            if v[0] == 0 {
+                v[0] = 1;
+            }
+            v
+        }
+        _ => {
+            let mut v = rng.bytes(20);
+            v[0] &= 0x7F;
+            if v[0] == 0 {
+                v[0] = 1;
+            }
+            v
+        }
+    };
+    (content, class)
+}
+
+fn number_valid(class: &str) -> bool {
+    // non-negative, at most 20 content octets (RFC 9286 / RFC 5280 "up to 20
+    // octets"), minimally encoded
+    !matches!(class, "2^159" | "2^160-1" | "2^160" | "negative" | "non-minimal" | "empty-integer")
+}
+
+fn gen_hash(rng: &mut Rng, with_data: bool, defects: bool) -> (Vec<u8>, u8, Option<Vec<u8>>, HashRel) {
+    if with_data {
+        let dl = *rng.pick(&[0usize, 1, 3, 55, 56, 63, 64, 65, 119, 200]);
+        let data = rng.bytes(dl);
+        let sha = sha256(&data);
+        let rel = *rng.pick(&[
+            HashRel::Match,
+            HashRel::Match,
+            HashRel::Match,
+            HashRel::BitFlip,
+            HashRel::BitFlip,
+            HashRel::Truncated,
+            HashRel::Extended,
+            HashRel::Empty,
+            HashRel::OtherData,
+        ]);
+        let hash = match rel {
+            HashRel::Match => sha,
+            HashRel::BitFlip => {
+                let mut h = sha;
+                let bit = rng.usize_below(256);
+                h[bit / 8] ^= 1 << (bit % 8);
+                h
+            }
+            HashRel::Truncated => {
+                let l = *rng.pick(&[1usize, 16, 20, 31]);
+                sha[..l].to_vec()
+            }
+            HashRel::Extended => {
+                let extra = *rng.pick(&[1usize, 16, 32]);
+                let mut h = sha;
+                h.extend(rng.bytes(extra));
+                h
+            }
+            HashRel::Empty => Vec::new(),
+            _ => {
+                let mut other = data.clone();
+                other.push(0);
+                sha256(&other)
+            }
+        };
+        // unused bits: 0 for most; sometimes the largest count the last octet allows
+        let unused = if rng.chance(1, 6) && !hash.is_empty() {
+            let tz = hash[hash.len() - 1].trailing_zeros().min(7) as u8;
+            if tz > 0 { rng.range(1, tz as u64) as u8 } else { 0 }
+        } else {
+            0
+        };
+        return (hash, unused, Some(data), rel);
+    }
+    // length 0..64, boundary-dense
+    let l = match rng.below(10) {
+        0 => 0,
+        1 => rng.range(1, 31) as usize,
+        2 => rng.range(33, 64) as usize,
+        3 => *rng.pick(&[1usize, 20, 31, 33, 48, 64]),
+        _ => 32,
+    };
+    let mut hash = rng.bytes(l);
+    let mut unused = 0u8;
+    if rng.chance(1, 5) {
+        unused = rng.range(0, 7) as u8;
+        match hash.last_mut() {
+            // DER wants the unused bits to be zero and none for an empty string;
+            // comply unless the manifest was chosen to carry hash defects
+            Some(last) => {
+                if !(defects && rng.chance(1, 3)) {
+                    *last &= !((1u16 << unused) - 1) as u8;
+                }
+            }
+            None => {
+                if !defects {
+                    unused = 0;
+                }
+            }
+        }
+    }
+    (hash, unused, None, HashRel::Random)
+}
+
+fn hash_der_valid(e: &Entry) -> bool {
+    if e.hash_enc != HashEnc::BitString || e.unused > 7 {
+        return false;
+    }
+    if e.hash.is_empty() {
+        return e.unused == 0;
+    }
+    let mask = ((1u16 << e.unused) - 1) as u8;
+    e.hash[e.hash.len() - 1] & mask == 0
+}
+
+fn mk_entry(rng: &mut Rng, name: Vec<u8>, shape: &'static str, with_data: bool, defects: bool) -> Entry {
+    let (hash, unused, data, rel) = gen_hash(rng, with_data, defects);
+    Entry { name, shape, name_enc: NameEnc::Primitive, hash, unused, hash_enc: HashEnc::BitString, data, rel, defect: None, indefinite: false }
+}
+
+const ENTRY_DEFECTS: &[&str] = &[
+    "name-tag-utf8", "name-tag-printable", "name-tag-octet", "hash-octet-string", "hash-missing", "entry-extra-element",
+    "entry-swapped", "hash-constructed", "hash-no-unused-octet", "hash-unused-8", "entry-is-set",
+];
+const OUTER_DEFECTS: &[&str] = &["filelist-missing", "filelist-is-set", "trailing-in-sequence", "outer-is-set", "truncated", "entry-not-sequence"];
+const BER_SHAPES: &[&str] = &[
+    "indefinite-outer", "indefinite-filelist", "indefinite-entry", "indefinite-all", "non-minimal-length", "segmented-name",
+    "segmented-name-hostile-split", "indefinite-version",
+];
+
+fn gen_case(rng: &mut Rng, stage: Stage, sha_ok: bool) -> Case {
+    let small = stage == Stage::Miri;
+    let n = gen_count(rng, stage);
+    let plan: &'static str = match rng.below(100) {
+        0..=49 => "all-valid",
+        50..=84 => "one-hostile",
+        85..=89 => "mixed-random",
+        90..=93 => "structure-defect",
+        94..=96 => "ber-shape",
+        _ => "field-defect",
+    };
+    let mut entries: Vec<Entry> = Vec::with_capacity(n);
+    let data_budget = if sha_ok { 3 } else { 0 };
+    let mut with_data_left = data_budget;
+    let dup = rng.chance(1, 12);
+    // non-DER hash bit strings (non-zero unused bits, unused bits on an empty
+    // string) only in a share of the manifests: one such entry sinks the lot
+    let hash_defects = rng.chance(1, 16);
+    for i in 0..n {
+        let shape: &'static str = if small && rng.chance(1, 2) { "valid:plain" } else { *rng.pick(VALID_SHAPES) };
+        // long names only now and then, they dominate the cost otherwise
+        let shape = if (shape == "valid:max-1100" || shape == "valid:long-stem") && !rng.chance(1, 8) { "valid:plain" } else { shape };
+        let name = if dup && i > 0 && rng.chance(1, 3) { entries[0].name.clone() } else { gen_valid(rng, shape, small) };
+        let with_data = with_data_left > 0 && rng.chance(1, 2);
+        if with_data {
+            with_data_left -= 1;
+        }
+        entries.push(mk_entry(rng, name, shape, with_data, hash_defects));
+    }
+    let mut focus: &'static str = entries.first().map(|e| e.shape).unwrap_or("no-entries");
+    let mut focus_pos: &'static str = "-";
+    let mut structure = None;
+    let mut ber = None;
+    match plan {
+        "one-hostile" => {
+            let shape: &'static str = *rng.pick(HOSTILE_SHAPES);
+            let name = gen_hostile(rng, shape, small);
+            let e = mk_entry(rng, name, shape, false, false);
+            if entries.is_empty() {
+                entries.push(e);
+                focus_pos = "only";
+            } else {
+                let (pos, label) = match rng.below(3) {
+                    0 => (0, "first"),
+                    1 => (entries.len() - 1, "last"),
+                    _ => (rng.usize_below(entries.len()), "middle"),
+                };
+                entries[pos] = e;
+                focus_pos = if entries.len() == 1 { "only" } else { label };
+            }
+            focus = shape;
+        }
+        "mixed-random" => {
+            for e in entries.iter_mut() {
+                if rng.chance(1, 3) {
+                    let shape: &'static str = *rng.pick(HOSTILE_SHAPES);
+                    e.name = gen_hostile(rng, shape, small);
+                    e.shape = shape;
+                }
+            }
+            focus = "mixed";
+        }
+        "structure-defect" => {
+            if !entries.is_empty() && rng.chance(2, 3) {
+                let d: &'static str = *rng.pick(ENTRY_DEFECTS);
+                let pos = rng.usize_below(entries.len());
+                let e = &mut entries[pos];
+                match d {
+                    "name-tag-utf8" => e.name_enc = NameEnc::Tag(der::T_UTF8),
+                    "name-tag-printable" => e.name_enc = NameEnc::Tag(der::T_PRINTABLE),
+                    "name-tag-octet" => e.name_enc = NameEnc::Tag(der::T_OCTETSTRING),
+                    "hash-octet-string" | "hash-constructed" | "hash-no-unused-octet" => e.hash_enc = HashEnc::Defect(d),
+                    "hash-unused-8" => e.unused = 8 + rng.below(248) as u8,
+                    _ => e.defect = Some(d),
+                }
+                structure = Some(d);
+            } else {
+                structure = Some(*rng.pick(OUTER_DEFECTS));
+            }
+        }
+        "ber-shape" => {
+            let b: &'static str = *rng.pick(BER_SHAPES);
+            ber = Some(b);
+            match b {
+                "indefinite-entry" | "indefinite-all" => {
+                    for e in entries.iter_mut() {
+                        e.indefinite = true;
+                    }
+                }
+                "segmented-name" => {
+                    for e in entries.iter_mut() {
+                        if e.name.len() >= 2 {
+                            e.name_enc = NameEnc::Segments(rng.range(1, 3) as usize);
+                        }
+                    }
+                }
+                "segmented-name-hostile-split" => {
+                    // a hostile name hidden across segment boundaries: "a" "/" "b.roa"
+                    let shape: &'static str = *rng.pick(&["slash-inside", "dotdot-prefix", "double-dot", "ext-4", "ext-2"]);
+                    let name = gen_hostile(rng, shape, small);
+                    let mut e = mk_entry(rng, name, shape, false, false);
+                    e.name_enc = NameEnc::Segments(3);
+                    focus = shape;
+                    focus_pos = "segmented";
+                    if entries.is_empty() {
+                        entries.push(e);
+                    } else {
+                        let pos = rng.usize_below(entries.len());
+                        entries[pos] = e;
+                    }
+                }
+                _ => {}
+            }
+        }
+        _ => {}
+    }
+    // header fields
+    let mut version: &'static str = match rng.below(20) {
+        0 => "explicit-0",
+        _ => "absent",
+    };
+    let (mut number, mut number_class) = gen_number(rng);
+    if plan != "field-defect" && !number_valid(number_class) {
+        number = vec![1];
+        number_class = "1";
+    }
+    let t1 = gen_ts(rng);
+    let (this_ts, next_ts, mut time_order): (i64, i64, &'static str) = match rng.below(40) {
+        0..=3 => (t1, t1, "equal"),
+        4..=5 => (t1, (t1 + 1).min(TS_MAX), "next-1s-later"),
+        6..=28 => {
+            let d = *rng.pick(&[3600i64, 86_400, 7 * 86_400, 366 * 86_400]);
+            (t1, (t1 + d).min(TS_MAX), "next-later")
+        }
+        29..=36 => {
+            let t2 = gen_ts(rng);
+            (t1.min(t2), t1.max(t2), "next-later-random")
+        }
+        37 => ((t1 + 1).min(TS_MAX), t1, "this-1s-after-next"),
+        _ => {
+            let t2 = gen_ts(rng);
+            (t1.max(t2), t1.min(t2), "this-after-next")
+        }
+    };
+    if this_ts == next_ts && time_order != "equal" {
+        time_order = "equal";
+    }
+    let enc_utc = |rng: &mut Rng, ts: i64| -> bool {
+        let y = civil(ts).0;
+        (1950..=2049).contains(&y) && rng.chance(1, 6)
+    };
+    let mut this_update = TimeSpec { ts: this_ts, utc: enc_utc(rng, this_ts), defect: None };
+    let mut next_update = TimeSpec { ts: next_ts, utc: enc_utc(rng, next_ts), defect: None };
+    let mut alg: &'static str = "sha256";
+    if plan == "field-defect" {
+        match rng.below(5) {
+            0 => version = *rng.pick(&["explicit-1", "explicit-0", "version-not-tagged"]),
+            1 => { /* number boundary classes already in */ }
+            2 => {
+                let d: &'static str = *rng.pick(TIME_DEFECTS);
+                if rng.bool() {
+                    this_update.defect = Some(d);
+                } else {
+                    next_update.defect = Some(d);
+                }
+            }
+            3 => alg = *rng.pick(&["sha1", "sha512", "sha256-in-sequence", "missing"]),
+            _ => {}
+        }
+    }
+    if ber == Some("indefinite-version") {
+        version = "explicit-0-ber-indef";
+    }
+    Case {
+        plan,
+        focus,
+        focus_pos,
+        version,
+        number,
+        number_class,
+        this_update,
+        next_update,
+        time_order,
+        alg,
+        entries,
+        structure,
+        ber,
+    }
+}
+
+//------------ encoder -------------------------------------------------------
+
+fn wrap(tag: u8, body: &[u8], indefinite: bool, nonminimal: bool) -> Vec<u8> {
+    if indefinite {
+        der::tlv_indefinite(tag, body)
+    } else if nonminimal {
+        let mut out = vec![tag];
+        out.extend(der::len_bytes_padded(body.len(), 3));
+        out.extend_from_slice(body);
+        out
+    } else {
+        der::tlv(tag, body)
+    }
+}
+
+fn split_points(len: usize, k: usize) -> Vec<usize> {
+    // k segments of near-equal size (some may be empty when len < k)
+    (0..=k).map(|i| len * i / k).collect()
+}
+
+fn encode_entry(e: &Entry, nonminimal: bool) -> Vec<u8> {
+    let name = match e.name_enc {
+        NameEnc::Primitive => der::ia5(&e.name),
+        NameEnc::Tag(t) => der::tlv(t, &e.name),
+        NameEnc::Segments(k) => {
+            let pts = split_points(e.name.len(), k.max(1));
+            let mut body = Vec::new();
+            for w in pts.windows(2) {
+                body.extend(der::octets(&e.name[w[0]..w[1]]));
+            }
+            der::tlv(der::T_IA5 | 0x20, &body)
+        }
+    };
+    let hash = match e.hash_enc {
+        HashEnc::BitString => der::bitstring(e.unused, &e.hash),
+        HashEnc::Defect("hash-octet-string") => der::octets(&e.hash),
+        HashEnc::Defect("hash-constructed") => der::tlv(der::T_BITSTRING | 0x20, &der::bitstring(e.unused, &e.hash)),
+        HashEnc::Defect(_) => der::tlv(der::T_BITSTRING, &[]),
+    };
+    let body = match e.defect {
+        None => der::concat(&[&name, &hash]),
+        Some("hash-missing") => name.clone(),
+        Some("entry-extra-element") => der::concat(&[&name, &hash, &der::null()]),
+        Some("entry-swapped") => der::concat(&[&hash, &name]),
+        Some(_) => der::concat(&[&name, &hash]),
+    };
+    let tag = if e.defect == Some("entry-is-set") { der::T_SET } else { der::T_SEQUENCE };
+    wrap(tag, &body, e.indefinite, nonminimal)
+}
+
+fn encode_case(c: &Case) -> Vec<u8> {
+    let nonminimal = c.ber == Some("non-minimal-length");
+    let indef_outer = matches!(c.ber, Some("indefinite-outer") | Some("indefinite-all"));
+    let indef_list = matches!(c.ber, Some("indefinite-filelist") | Some("indefinite-all"));
+    let mut body = Vec::new();
+    match c.version {
+        "explicit-0" => body.extend(der::tlv(der::ctx(0), &der::uint(0))),
+        "explicit-1" => body.extend(der::tlv(der::ctx(0), &der::uint(1))),
+        "explicit-0-ber-indef" => body.extend(der::tlv_indefinite(der::ctx(0), &der::uint(0))),
+        "version-not-tagged" => body.extend(der::uint(0)),
+        _ => {}
+    }
+    body.extend(der::tlv(der::T_INTEGER, &c.number));
+    body.extend(c.this_update.encode());
+    body.extend(c.next_update.encode());
+    match c.alg {
+        "sha256" => body.extend(der::oid(der::OID_SHA256)),
+        "sha1" => body.extend(der::oid(&[1, 3, 14, 3, 2, 26])),
+        "sha512" => body.extend(der::oid(&[2, 16, 840, 1, 101, 3, 4, 2, 3])),
+        "sha256-in-sequence" => body.extend(der::seq(&[&der::oid(der::OID_SHA256)])),
+        _ => {}
+    }
+    let mut list = Vec::new();
+    for e in &c.entries {
+        list.extend(encode_entry(e, nonminimal));
+    }
+    if c.structure == Some("entry-not-sequence") {
+        list.extend(der::ia5(b"x.roa"));
+    }
+    match c.structure {
+        Some("filelist-missing") => {}
+        Some("filelist-is-set") => body.extend(wrap(der::T_SET, &list, indef_list, nonminimal)),
+        _ => body.extend(wrap(der::T_SEQUENCE, &list, indef_list, nonminimal)),
+    }
+    if c.structure == Some("trailing-in-sequence") {
+        body.extend(der::null());
+    }
+    let tag = if c.structure == Some("outer-is-set") { der::T_SET } else { der::T_SEQUENCE };
+    let mut out = wrap(tag, &body, indef_outer, nonminimal);
+    if c.structure == Some("truncated") {
+        let cut = 1 + (c.number.len() + c.entries.len()) % 7;
+        let l = out.len().saturating_sub(cut);
+        out.truncate(l);
+    }
+    out
+}
+
+/// What the statement's grammar says about the names of the case.
+fn names_verdict(c: &Case) -> NameVerdict {
+    let mut res = NameVerdict::Ok;
+    for e in &c.entries {
+        match judge_name(&e.name) {
+            NameVerdict::Ok => {}
+            NameVerdict::EmptyStem => {
+                if res == NameVerdict::Ok {
+                    res = NameVerdict::EmptyStem
+                }
+            }
+            b => return b,
+        }
+    }
+    res
+}
+
+/// First reason (in my model of RFC 9286 / DER) why a strict decoder would
+/// refuse the case for something other than a name; None when there is none.
+fn other_defect(c: &Case) -> Option<String> {
+    if let Some(s) = c.structure {
+        return Some(format!("structure:{s}"));
+    }
+    if let Some(b) = c.ber {
+        return Some(format!("ber:{b}"));
+    }
+    if c.version != "absent" && c.version != "explicit-0" {
+        return Some(format!("version:{}", c.version));
+    }
+    if !number_valid(c.number_class) {
+        return Some(format!("number:{}", c.number_class));
+    }
+    if let Some(d) = c.this_update.defect.or(c.next_update.defect) {
+        return Some(format!("time:{d}"));
+    }
+    if c.this_update.ts > c.next_update.ts {
+        return Some("time:this-after-next".into());
+    }
+    if c.alg != "sha256" {
+        return Some(format!("alg:{}", c.alg));
+    }
+    for e in &c.entries {
+        if !hash_der_valid(e) {
+            return Some("hash:der-invalid-bitstring".into());
+        }
+    }
+    None
+}
+
+//------------ independent CMS wrapper ---------------------------------------
+
+struct Cms {
+    pool: PoolSigner,
+    ee_cert: Vec<u8>,
+    ski: Vec<u8>,
+    ta: Option<ResourceCert>,
+    ta_strict: Option<ResourceCert>,
+}
+
+fn cms_now() -> Time {
+    Time::utc(2030, 6, 1, 0, 0, 0)
+}
+
+impl Cms {
+    fn new(ctx: &mut Ctx) -> Option<Cms> {
+        let pool = PoolSigner::new(2);
+        let issuer = pool.info(0);
+        let ee = pool.info(1);
+        let validity = Validity::new(Time::utc(2020, 1, 1, 0, 0, 0), Time::utc(2040, 1, 1, 0, 0, 0));
+        let repo = Rsync::from_str("rsync://example.net/repo/ca/").unwrap();
+        let mft = Rsync::from_str("rsync://example.net/repo/ca/ca.mft").unwrap();
+        let crl = Rsync::from_str("rsync://example.net/repo/ca/ca.crl").unwrap();
+        let ta_uri = Rsync::from_str("rsync://example.net/repo/ta.cer").unwrap();
+        // EE certificate (library builder, pool keys)
+        let built = catch(|| {
+            let mut tbs = TbsCert::new(Serial::from(7u64), issuer.to_subject_name(), validity, None, ee.clone(), KeyUsage::Ee, Overclaim::Refuse);
+            tbs.set_authority_key_identifier(Some(issuer.key_identifier()));
+            tbs.set_crl_uri(Some(crl.clone()));
+            tbs.set_ca_issuer(Some(ta_uri.clone()));
+            tbs.set_signed_object(Some(mft.clone()));
+            tbs.set_v4_resources_inherit();
+            tbs.set_v6_resources_inherit();
+            tbs.set_as_resources_inherit();
+            let ee_cert = tbs.into_cert(&pool, &0usize).map(|c| c.to_captured().into_bytes().to_vec());
+            // self-signed CA certificate used as trust anchor for the validation observation
+            let mut ca = TbsCert::new(Serial::from(1u64), issuer.to_subject_name(), validity, None, issuer.clone(), KeyUsage::Ca, Overclaim::Refuse);
+            ca.set_basic_ca(Some(true));
+            ca.set_ca_repository(Some(repo.clone()));
+            ca.set_rpki_manifest(Some(mft.clone()));
+            ca.build_v4_resource_blocks(|b| b.push(rpki::repository::resources::Prefix::new(0, 0)));
+            ca.build_v6_resource_blocks(|b| b.push(rpki::repository::resources::Prefix::new(0, 0)));
+            ca.build_as_resource_blocks(|b| b.push((rpki::repository::resources::Asn::MIN, rpki::repository::resources::Asn::MAX)));
+            let ca = ca.into_cert(&pool, &0usize);
+            (ee_cert, ca)
+        });
+        let (ee_cert, ca) = match built {
+            Ok((Ok(ee_cert), ca)) => (ee_cert, ca.ok()),
+            Ok((Err(e), _)) => {
+                ctx.notes.push(format!("C14: could not issue the EE certificate for the signed-manifest path: {e}"));
+                return None;
+            }
+            Err(p) => {
+                ctx.notes.push(format!("C14: issuing the EE certificate panicked ({p}); signed-manifest path skipped"));
+                return None;
+            }
+        };
+        let tal = |strict: bool, ca: &Option<rpki::repository::cert::Cert>| -> Option<ResourceCert> {
+            let ca = ca.clone()?;
+            catch(|| ca.validate_ta_at(TalInfo::from_name("c14".into()).into_arc(), strict, cms_now()).ok()).ok().flatten()
+        };
+        let ta = tal(false, &ca);
+        let ta_strict = tal(true, &ca);
+        let ski = sha1(ee.bits());
+        Some(Cms { pool, ee_cert, ski, ta, ta_strict })
+    }
+
+    /// RFC 6488 SignedData around `econtent`; all bytes from `crate::der`,
+    /// signature from aws-lc-rs. Signed attributes are 107 octets.
+    fn wrap(&self, econtent: &[u8], variant: &'static str) -> Vec<u8> {
+        let ct_oid: &[u64] = if variant == "wrong-content-type" { der::OID_CT_ROA } else { der::OID_CT_MANIFEST };
+        let digest = sha256(econtent);
+        let attr = |oid: &[u64], value: Vec<u8>| der::seq(&[&der::oid(oid), &der::tlv(der::T_SET, &value)]);
+        let attrs = vec![
+            attr(der::OID_CONTENT_TYPE, der::oid(ct_oid)),
+            attr(der::OID_SIGNING_TIME, der::utctime("250101000000Z")),
+            attr(der::OID_MESSAGE_DIGEST, der::octets(&digest)),
+        ];
+        let set = der::set_of_sorted(&attrs); // 0x31 len body — what is signed
+        let body = &set[2..];
+        debug_assert!(set[1] < 0x80);
+        let signature = self.pool.key(1).sign_raw(&set);
+        let signed_attrs = der::tlv(der::ctx(0), body);
+        let digest_alg = if variant == "digest-alg-null" {
+            der::seq(&[&der::oid(der::OID_SHA256), &der::null()])
+        } else {
+            der::seq(&[&der::oid(der::OID_SHA256)])
+        };
+        let sig_alg_oid = if variant == "sha256-with-rsa" { der::OID_SHA256_WITH_RSA } else { der::OID_RSA_ENCRYPTION };
+        let signer_info = der::seq(&[
+            &der::uint(3),
+            &der::tlv(der::ctx_prim(0), &self.ski),
+            &digest_alg,
+            &signed_attrs,
+            &der::seq(&[&der::oid(sig_alg_oid), &der::null()]),
+            &der::octets(&signature),
+        ]);
+        let econtent_os = if variant == "segmented-econtent" {
+            // BER: constructed OCTET STRING in three segments (relaxed mode only)
+            let pts = split_points(econtent.len(), 3);
+            let mut b = Vec::new();
+            for w in pts.windows(2) {
+                b.extend(der::octets(&econtent[w[0]..w[1]]));
+            }
+            der::tlv(der::T_OCTETSTRING | 0x20, &b)
+        } else {
+            der::octets(econtent)
+        };
+        let encap = der::seq(&[&der::oid(ct_oid), &der::tlv(der::ctx(0), &econtent_os)]);
+        let signed_data = der::seq(&[
+            &der::uint(3),
+            &der::tlv(der::T_SET, &digest_alg),
+            &encap,
+            &der::tlv(der::ctx(0), &self.ee_cert),
+            &der::tlv(der::T_SET, &signer_info),
+        ]);
+        der::seq(&[&der::oid(der::OID_SIGNED_DATA), &der::tlv(der::ctx(0), &signed_data)])
+    }
+}
+
+const CMS_VARIANTS: &[&str] = &["plain", "plain", "plain", "plain", "digest-alg-null", "sha256-with-rsa", "segmented-econtent", "wrong-content-type"];
+
+//------------ bases ---------------------------------------------------------
+
+const BASES: &[(&str, &str)] = &[
+    ("rsync://example.net/repo/", "module-root"),
+    ("rsync://example.net/repo/ca", "one-level-no-slash"),
+    ("rsync://example.net/repo/ca/", "one-level-slash"),
+    ("rsync://EXAMPLE.net:873/Mod-1/a/b/c/d", "nested-no-slash"),
+    ("rsync://rpki.example.org/m/x.y/z_1/~u/0/", "nested-slash"),
+    ("rsync://h/m/ca.mft", "file-like-no-slash"),
+    ("RSYNC://h/m/a.b/", "upper-scheme-dotted-dir"),
+];
+
+//------------ oracle on a decoded manifest ----------------------------------
+
+/// Lossy text of a name, shortened for messages.
+fn show(name: &[u8]) -> String {
+    let t = String::from_utf8_lossy(name);
+    if t.chars().count() <= 80 {
+        t.to_string()
+    } else {
+        format!("{}… ({} octets)", t.chars().take(60).collect::<String>(), name.len())
+    }
+}
+
+fn error_key(text: &str) -> String {
+    let t = text.split(" (at position").next().unwrap_or(text);
+    t.chars().take(70).collect()
+}
+
+fn case_detail(c: &Case, econtent: &[u8], path: &str) -> Value {
+    let focus_name = c.entries.iter().find(|e| e.shape == c.focus).map(|e| hex(&e.name));
+    json!({
+        "path": path,
+        "plan": c.plan,
+        "focus_shape": c.focus,
+        "focus_name_hex": focus_name,
+        "entries": c.entries.len(),
+        "time_order": c.time_order,
+        "this_update": c.this_update.text(),
+        "next_update": c.next_update.text(),
+        "ber": c.ber,
+        "structure": c.structure,
+        "econtent_hex": if econtent.len() <= 3000 { hex(econtent) } else { format!("{}… ({} octets)", hex(&econtent[..600]), econtent.len()) },
+    })
+}
+
+struct Counters {
+    evals: u64,
+}
+
+/// All checks the statement makes about a decoded manifest.
+fn check_content(ctx: &mut Ctx, k: &mut Counters, content: &ManifestContent, c: &Case, econtent: &[u8], path: &str, verify: bool) {
+    let limit = c.entries.len() + content.len() + 8;
+    // --- names, len, entries
+    let listed = ctx.no_panic("iter", || case_detail(c, econtent, path), || {
+        content.iter().take(limit).map(|e| e.into_pair()).collect::<Vec<(Bytes, Bytes)>>()
+    });
+    let Some(listed) = listed else { return };
+    k.evals += 1;
+    if listed.len() != content.len() {
+        ctx.violation(
+            "C14:len-differs-from-iter-count",
+            &format!("len() = {} but iter() yields {}{} entries", content.len(), if listed.len() == limit { "at least " } else { "" }, listed.len()),
+            case_detail(c, econtent, path),
+        );
+    }
+    if content.is_empty() != (content.len() == 0) {
+        ctx.obs("is_empty_disagrees_with_len", 1);
+    }
+    let mut empty_stems = 0u64;
+    for (i, (name, _)) in listed.iter().enumerate() {
+        k.evals += 1;
+        match judge_name(name) {
+            NameVerdict::Ok => {}
+            NameVerdict::EmptyStem => {
+                empty_stems += 1;
+                ctx.sample("observation:empty-stem-accepted", || json!({"name": String::from_utf8_lossy(name), "index": i, "path": path, "note": "RFC 9286 forbids an empty stem; the statement's wording does not clearly; counted, not asserted"}));
+            }
+            NameVerdict::Bad(why) => {
+                let mut d = case_detail(c, econtent, path);
+                d["accepted_name_hex"] = json!(hex(name));
+                d["accepted_name"] = json!(String::from_utf8_lossy(name));
+                d["index"] = json!(i);
+                ctx.violation(
+                    &format!("C14:name-accepted:{why}"),
+                    &format!("decoded manifest lists the name {:?} which is not <stem>.<3 letters> ({why})", show(name)),
+                    d,
+                );
+            }
+        }
+    }
+    if empty_stems > 0 {
+        ctx.obs("empty_stem_names_accepted", empty_stems);
+    }
+    // the iterator yields what was encoded (only comparable when the entry
+    // structure itself was encoded regularly)
+    let regular = c.entries.iter().all(|e| e.defect.is_none() && e.hash_enc == HashEnc::BitString) && c.structure.is_none();
+    if regular {
+        k.evals += 1;
+        let same = listed.len() == c.entries.len() && listed.iter().zip(c.entries.iter()).all(|((n, h), e)| n.as_ref() == e.name.as_slice() && h.as_ref() == e.hash.as_slice());
+        if !same && listed.len() == c.entries.len() {
+            let idx = listed.iter().zip(c.entries.iter()).position(|((n, h), e)| n.as_ref() != e.name.as_slice() || h.as_ref() != e.hash.as_slice());
+            let mut d = case_detail(c, econtent, path);
+            d["index"] = json!(idx);
+            ctx.violation("C14:iter-entry-differs-from-encoded", "iter() yields a name or hash different from the encoded entry", d);
+        } else if !same {
+            let mut d = case_detail(c, econtent, path);
+            d["encoded_entries"] = json!(c.entries.len());
+            d["yielded"] = json!(listed.len());
+            ctx.violation("C14:iter-count-differs-from-encoded", "iter() yields a different number of entries than were encoded", d);
+        }
+    }
+    // --- times
+    k.evals += 1;
+    let lib_order_ok = content.this_update() <= content.next_update();
+    let enc_order_ok = c.this_update.ts <= c.next_update.ts;
+    if !lib_order_ok || (!enc_order_ok && c.this_update.defect.is_none() && c.next_update.defect.is_none()) {
+        ctx.violation(
+            "C14:this-update-after-next-update",
+            &format!("decoded manifest has thisUpdate {} after nextUpdate {}", c.this_update.text(), c.next_update.text()),
+            case_detail(c, econtent, path),
+        );
+    }
+    if c.this_update.defect.is_none() && c.next_update.defect.is_none() {
+        if content.this_update().timestamp() != c.this_update.ts || content.next_update().timestamp() != c.next_update.ts {
+            ctx.obs("decoded_time_differs_from_encoded", 1);
+        }
+    }
+    // --- URIs
+    let nb = if listed.len() > 100 { 2 } else { BASES.len() };
+    let first = (econtent.len() + listed.len()) % BASES.len();
+    for bi in 0..nb {
+        let (base_text, base_shape) = BASES[(first + bi) % BASES.len()];
+        let base = match Rsync::from_str(base_text) {
+            Ok(b) => b,
+            Err(_) => {
+                ctx.obs("base_uri_rejected", 1);
+                continue;
+            }
+        };
+        let mut dir = base_text.as_bytes().to_vec();
+        if !dir.ends_with(b"/") {
+            dir.push(b'/');
+        }
+        let uris = ctx.no_panic("iter_uris", || {
+            let mut d = case_detail(c, econtent, path);
+            d["base"] = json!(base_text);
+            d
+        }, || content.iter_uris(&base).take(limit).collect::<Vec<(Rsync, ManifestHash)>>());
+        let Some(uris) = uris else { continue };
+        k.evals += 1;
+        if uris.len() != content.len() {
+            ctx.violation(
+                "C14:iter-uris-count-differs-from-len",
+                &format!("iter_uris yields {} items, len() = {}", uris.len(), content.len()),
+                case_detail(c, econtent, path),
+            );
+        }
+        let dir_uri = Rsync::from_slice(&dir).ok();
+        let auth_end = 8 + dir[8..].iter().position(|c| *c == b'/').unwrap_or(0);
+        for (i, (uri, mh)) in uris.iter().enumerate() {
+            k.evals += 1;
+            let got = uri.as_slice();
+            let name: &[u8] = listed.get(i).map(|p| p.0.as_ref()).unwrap_or(b"");
+            let fail = |ctx: &mut Ctx, sig: &str, what: &str| {
+                let mut d = case_detail(c, econtent, path);
+                d["base"] = json!(base_text);
+                d["uri"] = json!(String::from_utf8_lossy(got));
+                d["name"] = json!(String::from_utf8_lossy(name));
+                d["index"] = json!(i);
+                ctx.violation(sig, &format!("{what}: base {base_text}, name {:?}, uri {:?}", show(name), show(got)), d);
+            };
+            // directly inside the directory, judged on the bytes alone
+            // (scheme and authority compare case-insensitively, the path exactly)
+            let inside = got.len() > dir.len() && got[..auth_end].eq_ignore_ascii_case(&dir[..auth_end]) && got[auth_end..dir.len()] == dir[auth_end..] && {
+                let rest = &got[dir.len()..];
+                !rest.contains(&b'/') && rest != b"." && rest != b".."
+            };
+            if !inside {
+                fail(ctx, "C14:uri-outside-base-directory", "iter_uris yielded a URI that is not directly inside the base directory");
+                continue;
+            }
+            if &got[dir.len()..] != name {
+                fail(ctx, "C14:uri-is-not-base-plus-name", "iter_uris yielded a URI whose last segment is not the listed name");
+            }
+            match (uri.parent(), &dir_uri) {
+                (Some(p), Some(d)) if p == *d => {}
+                _ => fail(ctx, "C14:uri-parent-is-not-base-directory", "parent() of a yielded URI is not the directory form of the base"),
+            }
+            match Rsync::from_slice(got) {
+                Ok(again) if again == *uri && again.as_slice() == got => {}
+                _ => fail(ctx, "C14:uri-does-not-reparse", "a yielded URI does not re-parse to an equal URI"),
+            }
+            if let Some((_, h)) = listed.get(i) {
+                if mh.as_slice() != h.as_ref() {
+                    fail(ctx, "C14:iter-uris-hash-differs", "iter_uris yields a hash different from iter()");
+                }
+            }
+            // --- hash verification (first base only)
+            if verify && bi == 0 && regular {
+                if let Some(e) = c.entries.get(i) {
+                    if let Some(data) = &e.data {
+                        k.evals += 1;
+                        check_verify(ctx, mh, &e.hash, e.unused, data, e.rel, "manifest-entry");
+                    }
+                }
+            }
+        }
+        ctx.sig(&format!("uris base={base_shape} n={} focus={}", count_class(listed.len()), c.focus));
+        if !uris.is_empty() {
+            ctx.sample("uris", || json!({"base": base_text, "first_uri": uris[0].0.as_str(), "entries": uris.len(), "path": path}));
+        }
+    }
+}
+
+/// `verify(data)` is Ok exactly when the listed octets are SHA-256(data).
+fn check_verify(ctx: &mut Ctx, mh: &ManifestHash, listed: &[u8], unused: u8, data: &[u8], rel: HashRel, origin: &str) {
+    let truth = sha256(data);
+    let equal = listed == truth.as_slice();
+    let got = catch(|| mh.verify(data).is_ok());
+    let detail = || json!({"origin": origin, "hash_hex": hex(listed), "unused_bits": unused, "data_hex": hex(data), "sha256_of_data": hex(&truth), "relation": rel.label()});
+    match got {
+        Err(p) => {
+            let sig = format!("C14:panic:hash-verify:{}", panic_location(&p));
+            ctx.violation(&sig, &format!("ManifestHash::verify panicked: {p}"), detail());
+        }
+        Ok(true) if !equal => {
+            ctx.violation(
+                &format!("C14:hash-verify-accepts-mismatch:{}", rel.label()),
+                "ManifestHash::verify returned Ok although the listed hash is not the SHA-256 of the data",
+                detail(),
+            );
+        }
+        Ok(false) if equal && unused == 0 => {
+            ctx.violation("C14:hash-verify-rejects-match", "ManifestHash::verify returned Err although the listed hash is the SHA-256 of the data", detail());
+        }
+        Ok(false) if equal => ctx.obs("verify_rejects_match_with_unused_bits", 1),
+        Ok(ok) => {
+            ctx.obs(if ok { "verify_ok" } else { "verify_mismatch" }, 1);
+        }
+    }
+    ctx.sig(&format!("verify origin={origin} rel={} hash={} data-len={} unused={}", rel.label(), hash_class(listed.len()), data.len(), unused.min(1)));
+    if equal {
+        ctx.sample("verify-ok", || detail());
+    } else {
+        ctx.sample("verify-mismatch", || detail());
+    }
+}
+
+//------------ the run -------------------------------------------------------
+
+enum Decoded {
+    Ok(ManifestContent),
+    Rejected(String),
+    Panicked(String),
+}
+
+fn decode_content(mode: Mode, econtent: &[u8], bytes_source: bool) -> Decoded {
+    let r = if bytes_source {
+        let b = Bytes::copy_from_slice(econtent);
+        catch(|| mode.decode(b, ManifestContent::take_from).map_err(|e| e.to_string()))
+    } else {
+        catch(|| mode.decode(econtent, ManifestContent::take_from).map_err(|e| e.to_string()))
+    };
+    match r {
+        Ok(Ok(c)) => Decoded::Ok(c),
+        Ok(Err(e)) => Decoded::Rejected(e),
+        Err(p) => Decoded::Panicked(p),
+    }
+}
+
+/// Books one decode outcome: observations, case signature, samples.
+#[allow(clippy::too_many_arguments)]
+fn book(ctx: &mut Ctx, c: &Case, path: &str, names: NameVerdict, other: &Option<String>, accepted: bool, err: Option<&str>, strict_model: bool) {
+    let names_ok = !matches!(names, NameVerdict::Bad(_));
+    let hclass = c.entries.iter().find(|e| e.shape == c.focus).or(c.entries.first()).map(|e| hash_class(e.hash.len())).unwrap_or("-");
+    let n = count_class(c.entries.len());
+    if accepted {
+        ctx.obs(&format!("{path}:accepted"), 1);
+        if strict_model {
+            match (names_ok, other) {
+                (true, None) => ctx.obs("model:valid-and-accepted", 1),
+                (false, _) => ctx.obs("model:hostile-name-but-accepted", 1), // the oracle decides, not the model
+                (true, Some(o)) => ctx.obs(&format!("model:expected-rejection-but-accepted:{o}"), 1),
+            }
+        }
+        ctx.sig(&format!("mft path={path} plan={} focus={}@{} accepted n={n} hash={hclass} time={}", c.plan, c.focus, c.focus_pos, c.time_order));
+        if names == NameVerdict::Ok {
+            ctx.sample(&format!("accepted:{path}"), || json!({"entries": c.entries.len(), "first_name": c.entries.first().map(|e| String::from_utf8_lossy(&e.name).to_string()), "focus": c.focus, "this_update": c.this_update.text(), "next_update": c.next_update.text()}));
+        }
+    } else {
+        ctx.obs(&format!("{path}:rejected"), 1);
+        let key = error_key(err.unwrap_or("?"));
+        ctx.obs(&format!("lib-error:{key}"), 1);
+        match (names, other) {
+            (NameVerdict::Bad(why), None) => {
+                // rejected and the only thing wrong is a name: non-trivial
+                ctx.obs(&format!("rejected-for-name:{why}"), 1);
+                ctx.sig(&format!("mft path={path} plan={} focus={}@{} rejected-name n={n} hash={hclass}", c.plan, c.focus, c.focus_pos));
+                if c.plan == "one-hostile" || c.ber.is_some() {
+                    ctx.sample(&format!("rejected-hostile:{}", c.focus), || {
+                        let e = c.entries.iter().find(|e| e.shape == c.focus);
+                        json!({"name": e.map(|e| String::from_utf8_lossy(&e.name).to_string()), "name_hex": e.map(|e| if e.name.len() <= 80 { hex(&e.name) } else { format!("{}… ({} octets)", hex(&e.name[..40]), e.name.len()) }), "position": c.focus_pos, "entries": c.entries.len(), "path": path, "library_error": key})
+                    });
+                }
+            }
+            (NameVerdict::Bad(_), Some(_)) => ctx.obs("rejected:hostile-name-and-other-defect", 1),
+            (_, Some(o)) => {
+                ctx.obs(&format!("rejected-other:{o}"), 1);
+            }
+            (_, None) => {
+                if strict_model {
+                    ctx.obs("model:valid-but-rejected", 1);
+                    ctx.sample("observation:valid-but-rejected", || json!({"path": path, "library_error": key, "focus": c.focus, "number": c.number_class, "this_update": c.this_update.text(), "next_update": c.next_update.text()}));
+                } else {
+                    ctx.obs(&format!("{path}:valid-der-rejected"), 1);
+                }
+            }
+        }
+    }
+}
 
 pub fn run(ctx: &mut Ctx) {
-    ctx.notes.push("C14: monitor not built yet".into());
+    let stage = ctx.stage;
+    let sha_ok = !ctx.no_ffi();
+    let total = ctx.stage_budget((40_000, 2_000_000), if ctx.tier == Tier::Thorough { 100_000 } else { 4_000 }, if ctx.tier == Tier::Thorough { 120 } else { 40 }, 400);
+    let mut rng = ctx.rng("manifests");
+    let cms = if sha_ok && stage != Stage::Valgrind { Cms::new(ctx) } else { None };
+    if let Some(cms) = &cms {
+        if cms.ta.is_none() {
+            ctx.notes.push("C14: trust-anchor certificate for the validation observation could not be built; signed manifests are decoded but not validated".into());
+        }
+    }
+    let mut k = Counters { evals: 0 };
+    let mut decoded_any = 0u64;
+    for i in 0..total {
+        let c = gen_case(&mut rng, stage, sha_ok);
+        let econtent = encode_case(&c);
+        let names = names_verdict(&c);
+        let other = other_defect(&c);
+        ctx.obs("generated", 1);
+        ctx.obs(&format!("plan:{}", c.plan), 1);
+        ctx.obs_max("entries", c.entries.len() as u64);
+        ctx.obs_max("name_length", c.entries.iter().map(|e| e.name.len()).max().unwrap_or(0) as u64);
+        if ctx.stage != Stage::Native && i % 64 == 0 {
+            ctx.breadcrumb(&format!("case {i}: plan={} focus={} entries={} econtent={}", c.plan, c.focus, c.entries.len(), hex(&econtent[..econtent.len().min(2000)])));
+        }
+        // ---- direct decode, DER then BER
+        for (mode, path) in [(Mode::Der, "content-der"), (Mode::Ber, "content-ber")] {
+            if mode == Mode::Ber && c.ber.is_none() && i % 2 == 1 {
+                continue;
+            }
+            k.evals += 1;
+            match decode_content(mode, &econtent, i % 3 != 0) {
+                Decoded::Ok(content) => {
+                    decoded_any += 1;
+                    book(ctx, &c, path, names, &other, true, None, mode == Mode::Der);
+                    check_content(ctx, &mut k, &content, &c, &econtent, path, sha_ok);
+                }
+                Decoded::Rejected(e) => book(ctx, &c, path, names, &other, false, Some(&e), mode == Mode::Der),
+                Decoded::Panicked(p) => {
+                    // decoder panics are C04's subject; recorded, not asserted here
+                    ctx.obs("decode_panicked", 1);
+                    let note = format!("C14: ManifestContent::take_from panicked at {} (not a C14 verdict; see C04)", panic_location(&p));
+                    if !ctx.notes.contains(&note) {
+                        ctx.notes.push(note);
+                    }
+                }
+            }
+        }
+        // ---- inside a complete signed manifest
+        if let Some(cms) = &cms {
+            if i % 5 == 0 {
+                let variant: &'static str = *rng.pick(CMS_VARIANTS);
+                let signed = cms.wrap(&econtent, variant);
+                for strict in [true, false] {
+                    let path = match (strict, variant) {
+                        (true, "plain") => "signed-strict",
+                        (false, "plain") => "signed-relaxed",
+                        (true, _) => "signed-strict-variant",
+                        (false, _) => "signed-relaxed-variant",
+                    };
+                    k.evals += 1;
+                    let b = Bytes::copy_from_slice(&signed);
+                    match catch(|| Manifest::decode(b, strict).map_err(|e| e.to_string())) {
+                        Ok(Ok(m)) => {
+                            decoded_any += 1;
+                            ctx.obs(&format!("cms-variant:{variant}:accepted"), 1);
+                            book(ctx, &c, path, names, &other, true, None, variant == "plain");
+                            check_content(ctx, &mut k, m.content(), &c, &econtent, path, sha_ok);
+                            ctx.sample("signed-manifest-accepted", || json!({"cms_variant": variant, "strict": strict, "cms_octets": signed.len(), "entries": c.entries.len(), "first_name": c.entries.first().map(|e| String::from_utf8_lossy(&e.name).to_string())}));
+                            // observation only: does it also validate under the issuing CA?
+                            if i % 40 == 0 {
+                                let ta = if strict { &cms.ta_strict } else { &cms.ta };
+                                if let Some(ta) = ta {
+                                    let r = catch(|| m.clone().validate_at(ta, strict, cms_now()).map(|_| ()).map_err(|e| e.to_string()));
+                                    match r {
+                                        Ok(Ok(())) => ctx.obs("signed:validated-under-ca", 1),
+                                        Ok(Err(e)) => ctx.obs(&format!("signed:validation-failed:{}", error_key(&e)), 1),
+                                        Err(_) => ctx.obs("signed:validation-panicked", 1),
+                                    }
+                                }
+                            }
+                        }
+                        Ok(Err(e)) => {
+                            ctx.obs(&format!("cms-variant:{variant}:rejected"), 1);
+                            if variant == "plain" {
+                                book(ctx, &c, path, names, &other, false, Some(&e), true);
+                            } else {
+                                ctx.obs(&format!("{path}:rejected"), 1);
+                                ctx.obs(&format!("lib-error:{}", error_key(&e)), 1);
+                            }
+                        }
+                        Err(p) => {
+                            ctx.obs("decode_panicked", 1);
+                            let note = format!("C14: Manifest::decode panicked at {} (not a C14 verdict; see C04)", panic_location(&p));
+                            if !ctx.notes.contains(&note) {
+                                ctx.notes.push(note);
+                            }
+                        }
+                    }
+                }
+            }
+        }
+    }
+    // ---- ManifestHash::verify on directly constructed hashes
+    if sha_ok {
+        let mut rng = ctx.rng("verify");
+        let n = ctx.stage_budget((4_000, 200_000), 4_000, 0, 200);
+        for _ in 0..n {
+            let (hash, _unused, data, rel) = gen_hash(&mut rng, true, false);
+            let data = data.unwrap_or_default();
+            let mh = ManifestHash::new(Bytes::copy_from_slice(&hash), DigestAlgorithm::sha256());
+            k.evals += 1;
+            check_verify(ctx, &mh, &hash, 0, &data, rel, "constructed");
+        }
+        // all single-bit differences of one digest
+        if ctx.shard == 0 {
+            let data = b"C14 single bit sweep".to_vec();
+            let sha = sha256(&data);
+            for bit in 0..256 {
+                let mut h = sha.clone();
+                h[bit / 8] ^= 1 << (bit % 8);
+                let mh = ManifestHash::new(Bytes::copy_from_slice(&h), DigestAlgorithm::sha256());
+                k.evals += 1;
+                check_verify(ctx, &mh, &h, 0, &data, HashRel::BitFlip, "bit-sweep");
+            }
+        }
+    }
+    ctx.evals(k.evals);
+    ctx.obs("decoded_manifests", decoded_any);
+    if decoded_any == 0 {
+        ctx.notes.push("C14: no generated manifest decoded in this shard; nothing was observed".into());
+    }
 }
